@@ -222,6 +222,13 @@ pub enum Kind {
     RereadHeld,
     /// `to_file_descriptor` (only meaningful when the base descriptor is direct).
     ToFd,
+    /// `recv_from` into a pool buffer (recvmsg with buffer select).
+    RecvFromPool,
+    /// Extract variants of the path operations: the paths come back.
+    OpenExtract,
+    CreateDirExtract,
+    RenameExtract,
+    RemoveExtract,
 }
 
 #[derive(Clone, Copy, Debug, PartialEq, Eq)]
@@ -257,13 +264,13 @@ impl Kind {
             WriteVec | WriteStatic | WriteString | WriteBoxed | WriteArc | WriteVectored2
             | WriteVectoredTuple | Send | SendTo | SendVectored | Connect | Bind | SetSockOpt
             | CreateDir | Rename | RemoveFile | Fsync | Truncate | Shutdown | CloseFd | Listen | SyncData | FAdvise
-            | Allocate | MemAdvise | SpliceTo | SpliceFrom | SendToVectored => Class::Plain,
+            | Allocate | MemAdvise | SpliceTo | SpliceFrom | SendToVectored | CreateDirExtract | RenameExtract | RemoveExtract => Class::Plain,
             SendZc | SendToZc | SendVectoredZc => Class::TwoStep,
-            ReadPool | RecvPool => Class::PoolOne,
+            ReadPool | RecvPool | RecvFromPool => Class::PoolOne,
             MultishotRead | MultishotRecv => Class::StreamBuf,
             MultishotAccept => Class::StreamDesc,
             Accept | AcceptNoAddr | OpenFile | OpenDirect | Socket | SocketDirect | Pipe
-            | PipeDirect | ToDirect | OpenTemp | ToFd => Class::Desc,
+            | PipeDirect | ToDirect | OpenTemp | ToFd | OpenExtract => Class::Desc,
             ReadN | WriteAll | WriteAllVectored | SendAll | RecvN | ReadNVectored | SendAllVectored => Class::Composite,
             Pollable => Class::StreamUnit,
             ReceiveSignals | ReceiveSignalsIntoInner => Class::Rearm,
@@ -277,7 +284,7 @@ impl Kind {
             self,
             ReadVec | ReadVecPrefilled | ReadVectored2 | Recv | RecvVectored | RecvFrom | RecvFromVectored | ReadLimited
                 | WriteVec | WriteStatic | WriteString | WriteBoxed | WriteArc | WriteVectored2 | WriteVectoredTuple
-                | Send | SendTo | SendVectored | ReadPool | RecvPool | ReadN | WriteAll | WriteAllVectored | SendAll
+                | Send | SendTo | SendVectored | ReadPool | RecvPool | RecvFromPool | ReadN | WriteAll | WriteAllVectored | SendAll
                 | SpliceTo | SpliceFrom | SendToVectored | RecvN | ReadNVectored | SendAllVectored | RereadHeld
         )
     }
@@ -408,6 +415,30 @@ pub fn make(kind: Kind, env: &Env<'_>) -> Op {
         CloseFd => unreachable!("CloseFd is made with make_close"),
         RereadHeld => unreachable!("RereadHeld is made with make_reread"),
         ToFd => single(fd.to_file_descriptor(), |f: AsyncFd, h| fd_str(f, h)),
+        RecvFromPool => single(fd.recv_from::<_, SocketAddr>(env.pool.unwrap().get()), |(b, a, f): (a10::io::ReadBuf, SocketAddr, i32), h| {
+            format!("{}:from:{a}:flags:{f}", buf_str(b, h))
+        }),
+        OpenExtract => {
+            use a10::Extract;
+            single(a10::fs::open_file(env.sq.clone(), PathBuf::from(format!("/verif-simk/xfile{n}"))).extract(), |(f, p): (AsyncFd, PathBuf), h| {
+                format!("{}:path:{}", fd_str(f, h), p.display())
+            })
+        }
+        CreateDirExtract => {
+            use a10::Extract;
+            single(a10::fs::create_dir(env.sq.clone(), PathBuf::from("/verif-simk/xdir")).extract(), |p: PathBuf, _| format!("path:{}", p.display()))
+        }
+        RenameExtract => {
+            use a10::Extract;
+            single(
+                a10::fs::rename(env.sq.clone(), PathBuf::from("/verif-simk/xfrom"), PathBuf::from("/verif-simk/xto")).extract(),
+                |(a, b): (PathBuf, PathBuf), _| format!("paths:{}>{}", a.display(), b.display()),
+            )
+        }
+        RemoveExtract => {
+            use a10::Extract;
+            single(a10::fs::remove_file(env.sq.clone(), PathBuf::from("/verif-simk/xgone")).extract(), |p: PathBuf, _| format!("path:{}", p.display()))
+        }
         Listen => single(fd.listen(16 + n as u32), |(): (), _| "unit".to_string()),
         PeerAddr => single(fd.peer_addr::<SocketAddr>(), |a: SocketAddr, _| format!("addr:{a}")),
         SyncData => single(fd.sync_data(), |(): (), _| "unit".to_string()),
